@@ -10,7 +10,9 @@ def _race_streams(tier):
 def _cancel_streams(tier):
     # the first 34 cases are the real transports, the rest generated traces over the tracing connection
     n = 34 + (500 if tier == "quick" else 12000)
-    return [("cancel", ["-n", str(n)]), ("ctxsplit", ["-n", "40" if tier == "quick" else "600"])]
+    return [("cancel", ["-n", str(n)]), ("ctxsplit", ["-n", "40" if tier == "quick" else "600"]),
+            # the context handed to a handler is its connection's: live while connected, cancelled once it has ended
+            ("connctx", ["-n", "12" if tier == "quick" else "200"])]
 
 
 PROPS = {
